@@ -173,6 +173,32 @@ def _trace_direction(ctx, n):
         ctx.sample({"trace": traces[0]}, cap=8)
 
 
+def _suite_direction(ctx):
+    """The repository's own tests, re-judged: every in-model ReactionSystem.rates call they make
+    is validated by TLC against Kinetics (their own assertions only sample a few numbers)."""
+    recs = [r for r in kc.record_suite(ctx.tmp, core.REPO) if r.get("fn") == "rates"]
+    traces = [r for r in recs if "trace" in r]
+    for r in recs:
+        if "skip" in r:
+            ctx.skip("suite-call-outside-model: " + r["skip"])
+    ctx.counters["suite_rates_calls"] = len(recs)
+    ctx.counters["suite_rates_calls_in_model"] = len(traces)
+    if not traces:
+        return
+    verdicts = ctx.validate_traces("KineticsTrace", "KineticsTrace.cfg", [r["trace"] for r in traces])
+    for r, (v, pos, clause) in zip(traces, verdicts):
+        ctx.ran({"suite": r["test"], "trace": r["trace"]}, nontrivial=True)
+        if v == "accept":
+            continue
+        if clause.startswith("step:") or clause in ("notready", "no-result-event", "shape"):
+            ctx.skip("suite-call-outside-model: " + clause)
+            continue
+        ctx.violation(dict(fn="ReactionSystem.rates", keys="suite", mode="suite", error="value", clause=clause,
+                           feed=any(e["ev"] == "Feed" for e in r["trace"]), untouched=False, cls="suite"),
+                      {"direction": "code->spec", "trace": r["trace"], "test": r["test"], "observed": r["trace"][-1],
+                       "verdict": {"verdict": v, "pos": pos, "clause": clause}, "tlc_cfg": "KineticsTrace.cfg"})
+
+
 def run(ctx):
     slices = QUICK if ctx.quick else THOROUGH
     for sl in slices:
@@ -191,7 +217,8 @@ def run(ctx):
         ctx.counters["cases_" + sl] = len(res.cases)
     # every terminal state of every slice is replayed (no sampling)
     ctx.exhaustive = True
-    _trace_direction(ctx, 1500 if ctx.quick else 20000)
+    _trace_direction(ctx, 1500 if ctx.quick else 12000)
+    _suite_direction(ctx)
 
 
 def replay(ctx, rec):
@@ -199,6 +226,11 @@ def replay(ctx, rec):
         for key, obs, want in replay_case(rec["case"]):
             if all(str(key.get(k)) == str(v) for k, v in rec["key"].items()):
                 ctx.violation(key, {"observed": obs, "expected": want})
+    elif "system" not in rec:
+        # a recorded suite call: re-validate the stored trace against the current spec
+        v, pos, clause = ctx.validate_traces("KineticsTrace", "KineticsTrace.cfg", [rec["trace"]])[0]
+        if v != "accept":
+            ctx.violation(rec["key"], {"observed": rec["trace"][-1], "verdict": {"verdict": v, "pos": pos, "clause": clause}})
     else:
         tr, obs, cin = _run_trace((rec["system"], rec["variant"]))
         if tr is None:
